@@ -29,6 +29,7 @@ fn main() {
         "scan-vectors" => vh::scan_vectors::run(&opts),
         "parsers" => vh::parser_drive::run(&opts),
         "stream" => vh::stream::run(&opts),
+        "wstream" => vh::wstream::run(&opts),
         "roundtrip" => vh::roundtrip::run(&opts),
         "replay-reader" => vh::replay_reader::run(&opts),
         "replay-writer" => vh::replay_writer::run(&opts),
